@@ -957,6 +957,16 @@ class SharesManager(BaseManager):
             return username not in directory.users
         return False
 
+    def is_remote_directory_locked(self, remote_directory: str, username: str) -> bool:
+        """Checks if the directory with given remote path lies in a shared
+        directory that is locked for the given ``username``
+        """
+        for shared_dir in self._shared_directories:
+            for item in shared_dir.items:
+                if item.get_remote_directory_path() == remote_directory:
+                    return self.is_directory_locked(shared_dir, username)
+        return False
+
     def is_item_locked(self, item: SharedItem, username: str) -> bool:
         """Checks if the shared item is locked for the given ``username``"""
         return self.is_directory_locked(item.shared_directory, username)
